@@ -161,7 +161,7 @@ def oracle_scale(case):
         w = wref(L, cfg["psll"])
         Sx = tol.seg_scale(x, D, L, w, cfg["order"])
         Sy = tol.seg_scale(y, D, L, w, cfg["order"])
-        bx, by, bxy = tol.budget2(L, om, Sx), tol.budget2(L, om, Sy), tol.budget2(L, om, (Sx * Sy) ** 0.5)
+        bx, by, bxy = tol.budget2(L, om, Sx), tol.budget2(L, om, Sy), tol.budget2(L, om, (Sx ** 0.5 * Sy ** 0.5))
         XX0, YY0, XY0 = float(r0.XX[j]), float(r0.YY[j]), complex(r0.XY[j])
         XX1, YY1, XY1 = float(r1.XX[j]), float(r1.YY[j]), complex(r1.XY[j])
         checks = [("XX", XX1, cx * cx * XX0, 4 * cx * cx * bx), ("YY", YY1, cy * cy * YY0, 4 * cy * cy * by),
@@ -252,7 +252,7 @@ def oracle_relabel(case):
         Sy = Sx if y is None else tol.seg_scale(y, D, L, w, cfg["order"])
         S2 = float(np.sum(w * w))
         k0 = 2.0 / (fs * S2) if S2 > 0 else 0.0
-        for name, S in (("Gxx", Sx), ("Gyy", Sy), ("Gxy", (Sx * Sy) ** 0.5)):
+        for name, S in (("Gxx", Sx), ("Gyy", Sy), ("Gxy", (Sx ** 0.5 * Sy ** 0.5))):
             bud = 4 * tol.budget2(L, om, S) * k0
             if not abs(complex(getattr(r1, name)[0]) * a - complex(getattr(r0, name)[0])) <= bud:
                 viol.append(V("relabel_density", q=name, a=a, got=complex(getattr(r1, name)[0]), base=complex(getattr(r0, name)[0])))
